@@ -99,6 +99,7 @@ fn lib_source(g: &mut Rng, session: bool) -> (String, Vec<String>) {
         ("visb", "{ a::: 10, h::: 20, v:: 30, extra: [lib.shallow] }".into()),
         ("visc", "{ a+: 1, h+:: 5, v+::: 6, n+: { z::: 2 } }".into()),
         ("visd", "{ a:: 0, zz::: 0, extra:: 0 } + { [k]: k + \"!\" for k in [\"a\", \"zz\", \"extra\"] }".into()),
+        ("longn", "{ configuration_b: 1, configuration_a: 2, upstream_hostname: lib.shallow, upstream_host: 4 }".into()),
         // fields that depend on `self`: objects DERIVED from a shared object by later requests (a key removed, patched,
         // overridden, hidden) must compute them against the new object, whatever was forced on the original before
         ("selfdep", "{ a: 1, b: std.objectHas(self, \"a\"), n: std.length(self), c: self.a + lib.shallow, d: std.objectFields(self) }".into()),
@@ -117,7 +118,7 @@ fn lib_source(g: &mut Rng, session: bool) -> (String, Vec<String>) {
     // always present: shallow, arr, deep, secret; others by swarm
     let mut names = Vec::new();
     for (n, src) in &menu {
-        if matches!(*n, "shallow" | "arr" | "deep" | "boom" | "nested" | "guarded" | "loop" | "loop2") || g.chance(2, 3) {
+        if matches!(*n, "shallow" | "arr" | "deep" | "boom" | "nested" | "guarded" | "loop" | "loop2" | "selfdep") || g.chance(2, 3) {
             fields.push((n.to_string(), src.clone()));
             names.push(n.to_string());
         }
@@ -141,7 +142,7 @@ fn client_source(g: &mut Rng, names: &[String], via: &str) -> String {
     let objs: Vec<String> = names.iter().filter(|n| matches!(n.as_str(), "visa" | "visb" | "visc" | "visd" | "guarded" | "checked" | "nested" | "comp" | "viasuper" | "halfbad" | "outer" | "selfdep" | "plusdeep" | "plussub" | "plusobj")).cloned().collect();
     let vis: Vec<String> = objs.iter().filter(|n| n.starts_with("vis")).cloned().collect();
     let fo = |g: &mut Rng| if !vis.is_empty() && g.chance(3, 5) { g.pick(&vis).clone() } else if objs.is_empty() { "nested".to_string() } else { g.pick(&objs).clone() };
-    match g.below(42) {
+    match g.below(46) {
         0 => format!("{l}.{}", f(g)),
         1 => format!("local l = {l}; [l.{}, l.{}]", f(g), f(g)),
         2 => format!("local l = {l}; {{ a: l.{}, b: l.{} }}", f(g), f(g)),
@@ -181,7 +182,13 @@ fn client_source(g: &mut Rng, names: &[String], via: &str) -> String {
         38 => "std.format(\"<%(gho\" + \"st)s>\", [7]) + (\"<%(gho\" + \"st)05d|%(sha\" + \"llow)s>\") % { ghost: 3, shallow: \"s\" }".to_string(),
         39 => format!("local l = {l}; (\"<%(gho\" + \"st)s>\") % (l.guarded + {{ ghost: l.shallow }})"),
         40 => "{ ghost: \"boo\", r: (\"<%(gho\" + \"st)s>\") % self }.r".to_string(),
-        33 => format!("local l = {l}; [std.objectRemoveKey(l.{a}, \"a\"), std.mergePatch(l.{b}, {{ a: null, k: null }}), l.{a}]", a = fo(g), b = fo(g)),
+        // long field names sharing a long prefix, first mentioned in different orders by different sources: the order of
+        // fields in an answer is alphabetical, whatever order the names entered the long-lived state in
+        41 => "{ upstream_host: \"h\" }".to_string(),
+        42 => "{ upstream_port: 1, upstream_host: \"h\", upstream_hostname: 2, upstream_: 0, configuration_a: 3 }".to_string(),
+        43 => format!("local l = {l}; [std.objectFields({{ upstream_port: 1 }} + {{ upstream_host: 2 }}), std.objectFields(l.longn), l.longn]"),
+        44 => "std.manifestJsonMinified(std.parseJson(\"{\\\"upstream_port\\\": 1, \\\"upstream_host\\\": 2, \\\"configuration_a\\\": 0}\"))".to_string(),
+        33 => format!("local l = {l}; [std.objectRemoveKey(l.{a}, \"a\"), std.mergePatch(l.{b}, {{ a: null, k: null }}), l.{a}]", a = if g.chance(1, 2) { "selfdep".to_string() } else { fo(g) }, b = fo(g)),
         34 => format!("local l = {l}; [l.{a} {{ a: 10 }}, l.{b} + {{ a:: 5, xs+: [9] }}, std.objectRemoveKey(l.{a}, \"xs\")]", a = fo(g), b = fo(g)),
         35 => format!("local l = {l}; local o = l.{}; [std.length(o), std.objectFields(o), o]", fo(g)),
         36 => format!("local l = {l}; std.prune(l.{}) == l.{}", fo(g), fo(g)),
